@@ -87,7 +87,10 @@ def thunk(c, pose, num):
                                  P(pts[3], pose, num, dx), False)
     if call_ == "Polyhedron":
         variants = {0: lambda: cube_faces(), 1: lambda: cube_faces((1,)), 2: lambda: cube_faces((1, 2, 3, 4, 5)),
-                    3: lambda: cube_faces((2, 3, 4, 5)), 4: lambda: cube_faces() + tet_faces()}
+                    3: lambda: cube_faces((2, 3, 4, 5)), 4: lambda: cube_faces() + tet_faces(),
+                    # same V, E, F totals as the closed solid: a face left out and another one given twice
+                    5: lambda: cube_faces((1,)) + [cube_faces()[0]], 6: lambda: tet_faces()[:3] + [tet_faces()[0]],
+                    7: lambda: cube_faces((1, 3)) + [cube_faces()[0], cube_faces()[2]]}
         return lambda: ConvexPolyhedron(tuple(variants[n]()))
     if call_ == "SegFromList":
         return lambda: G.get_segment_from_point_list([P(p, pose, num) for p in pts])
